@@ -1,4 +1,5 @@
 import JsightVerif.Spec.Context
+import JsightVerif.Proofs.ScanNest
 /-
   C11 — directive nesting follows the context table, implicit or explicit.
   `attach` / `closeExplicit` are the hand model of core/context_processing.go and
@@ -308,5 +309,29 @@ example : resolve (hd .Get true false) [hd .URL true false, hd .URL true false] 
 /-- the pre-fix counterexample (`MACRO @m (`, `URL /a`, `GET /b`) is now rejected -/
 theorem explicit_closed_silently_prefix_witness :
     resolve (hd .Get true false) [hd .URL true false, hd .Macro false true] = .errCtxPath := by decide
+
+/-! ### whole documents: every directive of a scanned project sits where the table allows it -/
+
+section Whole
+open JsightVerif.Model.Build
+
+/-- **C11 (whole project, scanning stage)**: in the forest of every project the scanning stage
+    accepts — any number of files, INCLUDE graph, explicit and implicit contexts, any depth — every
+    directive's kind is admitted by its parent's kind in the regenerated context table, and every
+    root directive is allowed at root level. -/
+theorem C11_scanned_forest_nested (fsys : FileSys) (n : Nat) (c c' : Core) (hc : c.ctx = Ctx.empty)
+    (hrun : Core.run fsys n c = .ok c') : Tree.wnList Dir.kind none c'.ctx.forest = true :=
+  scan_forest_wn fsys n c c' hc hrun
+
+/-- **C11 (after MACRO/PASTE)**: the same for the forest the catalog is built from, whatever forest
+    and macros went into the expansion: pasted directives are re-resolved against the table. -/
+theorem C11_expanded_forest_nested (roots : List DT) (rootFile : Bytes) (banned : List Kind)
+    (content : Bytes → Bytes) (b : Built) (h : build roots rootFile banned content = .ok b) :
+    Tree.wnList Dir.kind none b.expanded = true := by
+  obtain ⟨ms, dirs, fuel, ps, _, _, _, _, hp, he, _, _, _⟩ := build_stages roots rootFile banned content b h
+  rw [he]
+  exact forest_wn Dir.kind ps.ctx ((paste_keeps_wn ms fuel).1 dirs {} ps rfl hp)
+
+end Whole
 
 end JsightVerif.Props.C11
